@@ -148,12 +148,21 @@ def cover(kinds=("base", "mult", "dimensionless")):
     return out
 
 
-def same_dim_pairs(seed, n, include_cover=True, kinds=("base", "mult", "dimensionless")):
+def positive(names):
+    """drop units with a non-positive scale (electron_g_factor): ordering clauses are stated
+    for positively scaled units only"""
+    inf = infos()
+    return [n for n in names if inf[n].num > 0]
+
+
+def same_dim_pairs(seed, n, include_cover=True, kinds=("base", "mult", "dimensionless"), positive_only=False):
     """ordered pairs of distinct same-dimension exact units: structural cover first, then
     seeded draws over all classes"""
     rnd = random.Random(f"pairs:{seed}")
     cl = classes(kinds=kinds)
     inf = infos()
+    if positive_only:
+        cl = {k: [m for m in v if inf[m].num > 0] for k, v in cl.items()}
     pairs = []
     seen = set()
 
